@@ -20,8 +20,8 @@ PROPS = {
             'that handles can still be dropped after the panic (drop glue / unwinding is outside both verifiers)',
         ]),
     'C14': dict(
-        units=['expert'], level='proof',
-        replays=['c14_invalid_dep_removed.rs'],
+        units=['expert', 'nodepred'], level='proof',
+        replays=['c14_invalid_dep_removed.rs', 'c14_callback_on_new_dependency.rs'],
         uncovered=[
             'expert_add_dependency / expert_remove_dependency / expert_swap_children_except_in_kind in node.rs (three nodes\' RefCells at once)',
             'double-borrow panics on duplicate children (RefCell borrow flags are erased by rule R5)',
@@ -95,7 +95,7 @@ LEMMA_PROPS = {
     'handlers': {'*': ['C09']},
     'observer': {'lemma_handler_count_invariant': ['C11', 'C09'], 'lemma_lifecycle': ['C10'], '*': ['C10']},
     'var': {'*': ['C08']},
-    'nodepred': {'*': ['C06', 'C05']},
+    'nodepred': {'*': ['C06', 'C05']},   # (no lemmas yet)
 }
 
 NOT_APPLICABLE = {
